@@ -233,7 +233,6 @@ def observe(res: Dict[str, Any], frames: Dict[int, bytes], timecode: bool) -> Tu
     marks = res["marks"]
     lines = ["OBS0"]
     streams: Dict[int, bytes] = {}
-    pending: Dict[int, bytes] = {}      # uid -> header bytes waiting for their payload write
     nm = 0
     # round i covers events[marks[i] : marks[i+1]]; without a crash the last mark is the exhausted read-select (shutdown
     # follows); after a crash every mark starts a round and the crash round ends where run()'s `finally` starts closing
@@ -244,23 +243,63 @@ def observe(res: Dict[str, Any], frames: Dict[int, bytes], timecode: bool) -> Tu
         end = marks[-1] if marks else len(ev)
         bl = sorted(marks[:-1])
     bi = 0
-    for i, e in enumerate(ev[:end]):
+    H = header_cls(timecode)
+    hs = ctypes.sizeof(H)
+    carry: Dict[int, bytes] = {}        # uid -> bytes of a frame that began in a write longer than a header, not whole yet
+    dangling: List[int] = []            # uids with a header on its own, no payload and no failure after it
+
+    def declared(hdr_b: bytes) -> Optional[int]:
+        return int(H.from_buffer_copy(hdr_b).num_data_bytes) if len(hdr_b) == hs else None
+
+    def cut_frames(u: int, buf: bytes):
+        """whole frames out of a piece of `u`'s byte stream (writes that hold more than a header); the rest is carried"""
+        while len(buf) >= hs:
+            n = max(0, declared(buf[:hs]) or 0)
+            if len(buf) < hs + n:
+                break
+            lines.append(f"S {u} " + decode_frame(buf[:hs], buf[hs:hs + n], frames, timecode))
+            buf = buf[hs + n:]
+        if buf:
+            carry[u] = buf
+
+    # How the manager cuts a frame into `sendall` calls is not the properties' business.  A write of at most a header is a
+    # header on its own: the next write on that connection is its payload (the lengths must agree, else BADLEN / BADHDR —
+    # "payload of another message"); a failure right after it is a partial write (P); a header that declares no payload
+    # is a whole frame whether or not an empty write follows.  A longer write holds header and payload (or several
+    # frames): the connection's bytes are cut into frames as a receiver would.
+    i = 0
+    while i < end:
         while bi < len(bl) and bl[bi] == i:
             lines.append("MARK")
             bi += 1
+        e = ev[i]
+        i += 1
         if e[0] == "W":
             u, data = e[1], e[2]
             streams[u] = streams.get(u, b"") + data
-            if u in pending:
-                hb = pending.pop(u)
-                lines.append(f"S {u} " + decode_frame(hb, data, frames, timecode))
+            if u in carry:
+                cut_frames(u, carry.pop(u) + data)
+                continue
+            if len(data) > hs:
+                cut_frames(u, data)
+                continue
+            nxt = ev[i] if i < end else None
+            n = declared(data)
+            if nxt is not None and nxt[0] == "W" and nxt[1] == u and not (n == 0 and len(nxt[2]) > 0):
+                streams[u] += nxt[2]
+                lines.append(f"S {u} " + decode_frame(data, nxt[2], frames, timecode))
+                i += 1          # (no round starts between the two writes of one message)
+            elif nxt is not None and nxt[0] == "WF" and nxt[1] == u:
+                lines.append(f"P {u}")
+            elif n == 0:
+                lines.append(f"S {u} " + decode_frame(data, b"", frames, timecode))
             else:
-                pending[u] = data
+                dangling.append(u)
         elif e[0] == "WF":
             u = e[1]
-            if u in pending:
-                pending.pop(u)
-                lines.append(f"P {u}")
+            if u in carry:
+                if len(carry.pop(u)) >= hs:
+                    lines.append(f"P {u}")
             lines.append(f"WF {u}")
         elif e[0] == "C":
             lines.append(f"X {e[1]}")
@@ -271,8 +310,8 @@ def observe(res: Dict[str, Any], frames: Dict[int, bytes], timecode: bool) -> Tu
         bi += 1
     if res["crash"]:
         lines.append("CRASH " + res["crash"].split(":")[0])
-    for u in pending:
-        lines.append(f"P {u}")      # a header without payload and without failure: never expected
+    for u in dangling + list(carry):
+        lines.append(f"P {u}")      # a header without (all of) its payload and without failure: never expected
     return lines, streams
 
 
@@ -325,12 +364,16 @@ def run_script(script: List[Dict[str, Any]], *, timecode: bool = False, log_leve
     mgr_kw = dict(timecode=timecode, log_level=log_level, send_msg_timing=timing, order=order, debug=debug)
     # the manager's own table entry reports os.getpid(): pin it
     import pyrtma.manager as M
-    _orig_getpid = M.os.getpid
-    M.os.getpid = lambda: 4242
+    import os as _os
+    from .rebind import rebind
+    _orig_getpid = _os.getpid
+    _os.getpid = _pid = lambda: 4242            # the `os.getpid()` spelling (any alias of the module)
+    rebind(M, {"os": {"getpid": _pid}})         # the `from os import getpid` spelling
     try:
         res = fakes.run_manager(rounds, **mgr_kw)
     finally:
-        M.os.getpid = _orig_getpid
+        _os.getpid = _orig_getpid
+        rebind(M, {"os": {"getpid": _orig_getpid}})
     obs, streams = observe(res, frames, timecode)
     final = final_tables(res) if not res["crash"] else []
     c = consts()
